@@ -187,11 +187,17 @@ func RunRestart(scn RestartScn, env *runner.Env, res *runner.Result) {
 	}
 	// ---- crash at the armed point; activity that reaches it
 	arm := s.ArmAt("a", scn.CrashPoint, scn.CrashNth, sched.Crash)
-	AppPut(a, s, "a-key-2", "v2-before-crash")
+	if !scn.CheckWrites {
+		AppPut(a, s, "a-key-2", "v2-before-crash")
+	}
+	// (with CheckWrites the instance crashes while idle and fully synced: after the restart the merge of its own
+	// snapshot then changes nothing, which is when LMDB hands that transaction's id to the application)
 	// a remote snapshot so that load.* points are reached
 	rs := &wire.Snap{FormatVersion: 3, CompatVersion: 1, Meta: wire.Meta{DatabaseName: dbName, InstanceID: "r", GenerationID: "GX", TimestampNano: uint64(time.Now().UnixNano())},
 		DBIs: []wire.DBI{{Name: "d", Entries: []wire.KV{{Key: []byte("r-key"), Val: []byte("vr"), TS: uint64(time.Now().UnixNano())}}}}}
-	b.Put(snapshot.Name(dbName, "r", "GX", time.Now()), wire.Gzip(wire.EncodeSnapshot(rs)))
+	if !scn.CheckWrites {
+		b.Put(snapshot.Name(dbName, "r", "GX", time.Now()), wire.Gzip(wire.EncodeSnapshot(rs)))
+	}
 	crashed := false
 	from := s.Len()
 	dl := time.Now().Add(wd)
@@ -249,6 +255,27 @@ func RunRestart(scn RestartScn, env *runner.Env, res *runner.Result) {
 	defer atomic.StoreInt32(&gateOpen, 1)
 	wrote := false
 	doWrite := func() {
+		if scn.CheckWrites {
+			// one transaction: a transaction id handed out twice is only visible when exactly one commit follows
+			s.Note(a.Name, "APP BEGIN restart-writes")
+			id, _ := lmdbx.Update(a.Env, func(txn *lmdb.Txn) error {
+				for _, kv := range [][2]string{{"a-after-restart", "new"}, {"a-key-0", "after-restart"}} {
+					var err error
+					if a.Opt.Native {
+						err = inst.NativePut(txn, "d", []byte(kv[0]), uint64(time.Now().UnixNano()), false, []byte(kv[1]))
+					} else {
+						err = lmdbx.Put(txn, "d", 0, []byte(kv[0]), []byte(kv[1]))
+					}
+					if err != nil {
+						return err
+					}
+				}
+				return nil
+			})
+			s.Note(a.Name, fmt.Sprintf("APP COMMIT txn %d: restart-writes", id))
+			wrote = true
+			return
+		}
 		AppPut(a, s, "a-after-restart", "new")
 		AppPut(a, s, "a-key-0", "after-restart")
 		wrote = true
